@@ -145,58 +145,81 @@ func ruleDoUniqueIndex(c *Ctx, r *R) {
 	for _, fn := range doFns(c) {
 		name := c.nameOf(fn)
 		bi := bgAnalyse(c, name)
-		// x := int32(-1)
-		okInit := false
-		instrs(fn, func(b *ssa.BasicBlock, i int, in ssa.Instruction) {
-			if st, ok := in.(*ssa.Store); ok {
-				if al, ok := st.Addr.(*ssa.Alloc); ok && al.Comment == "x" && isConstInt(st.Val, -1) {
-					okInit = true
+		// the shared counter: the variable whose address reaches atomic.AddInt32 (directly, or through a worker helper)
+		var counter *ssa.Alloc
+		isClaim := func(v ssa.Value, chain []*ssa.Call) bool {
+			for {
+				if cv, ok := v.(*ssa.Convert); ok {
+					v = cv.X
+					continue
 				}
+				break
 			}
-		})
-		r.ok(okInit, name+"|x-starts-at-minus-one", fn.Pos(), "the shared counter must start at -1 so the first AddInt32(&x,1) yields index 0")
+			ac, ok := v.(*ssa.Call)
+			if !ok {
+				return false
+			}
+			cal := ac.Call.StaticCallee()
+			if cal == nil || cal.Name() != "AddInt32" || !isConstInt(ac.Call.Args[1], 1) {
+				return false
+			}
+			if cell := cellOf(argOf(ac.Call.Args[0], chain)); cell != nil && cell.Parent() == fn {
+				counter = cell
+				return true
+			}
+			return false
+		}
 		for _, g := range bi.spawned {
-			// calls of f (the func-typed parameter/captured variable)
 			nf := 0
-			instrs(g, func(b *ssa.BasicBlock, i int, in ssa.Instruction) {
-				call, ok := in.(*ssa.Call)
-				if !ok || call.Call.IsInvoke() || !strings.HasSuffix(path(call.Call.Value), "f") {
-					return
+			for _, di := range deepInstrs(g, 2) {
+				call, ok := di.in.(*ssa.Call)
+				if !ok || call.Call.IsInvoke() {
+					continue
 				}
 				if _, isFn := call.Call.Value.(*ssa.Function); isFn {
-					return
+					continue
+				}
+				if _, isB := call.Call.Value.(*ssa.Builtin); isB {
+					continue
+				}
+				if path(call.Call.Value) != "f" {
+					continue
 				}
 				nf++
 				idx := call.Call.Args[len(call.Call.Args)-1]
-				v := idx
-				for {
-					if cv, ok := v.(*ssa.Convert); ok {
-						v = cv.X
-						continue
-					}
-					break
-				}
-				fromAdd := false
-				if ac, ok := v.(*ssa.Call); ok {
-					if cal := ac.Call.StaticCallee(); cal != nil && cal.Name() == "AddInt32" && isConstInt(ac.Call.Args[1], 1) {
-						if cell := cellOf(ac.Call.Args[0]); cell != nil && cell.Comment == "x" {
-							fromAdd = true
+				fromAdd := isClaim(idx, di.calls)
+				if phi, ok := idx.(*ssa.Phi); ok && !fromAdd {
+					// for i := claim(); i < n; i = claim()
+					all := len(phi.Edges) > 0
+					for _, e := range phi.Edges {
+						if !isClaim(e, di.calls) {
+							all = false
 						}
 					}
+					fromAdd = all
 				}
 				r.ok(fromAdd, name+"|worker-index-from-atomic-add", call.Pos(), "the index handed to f must be the result of atomic.AddInt32(&x, 1) itself (through conversions only): any other derivation can hand the same index to two workers or skip one")
 				bounded := false
-				for _, gd := range guardsOf(b) {
+				for _, gd := range guardsOf(call.Block()) {
 					if cf, ok := gd.asCmp(); ok && cf.x == idx && cf.op == token.LSS && strings.HasSuffix(path(cf.y), "n") {
 						bounded = true
 					}
 				}
 				r.ok(bounded, name+"|worker-index-below-n", call.Pos(), "f must be called only under i < n for the claimed index")
-			})
+			}
 			if nf != 1 {
 				r.violated(name+"|worker-calls-f-once-per-claim", g.Pos(), "the worker loop must contain exactly one call of f per claimed index, found "+itoa(nf))
 			}
 		}
+		okInit := false
+		if counter != nil {
+			for _, st := range storesTo(counter) {
+				if st.Parent() == fn && isConstInt(st.Val, -1) {
+					okInit = true
+				}
+			}
+		}
+		r.ok(okInit, name+"|x-starts-at-minus-one", fn.Pos(), "the shared counter must start at -1 so the first AddInt32(&x,1) yields index 0")
 		// sequential path: f(i) with i the induction variable 0..n-1
 		okSeq := false
 		instrs(fn, func(b *ssa.BasicBlock, i int, in ssa.Instruction) {
@@ -204,13 +227,11 @@ func ruleDoUniqueIndex(c *Ctx, r *R) {
 			if !ok || call.Call.IsInvoke() {
 				return
 			}
-			if p, isP := call.Call.Value.(*ssa.Parameter); !isP || p.Name() != "f" {
-				if !strings.HasSuffix(path(call.Call.Value), "f") {
-					return
-				}
-				if _, isFn := call.Call.Value.(*ssa.Function); isFn {
-					return
-				}
+			if _, isFn := call.Call.Value.(*ssa.Function); isFn {
+				return
+			}
+			if path(call.Call.Value) != "f" {
+				return
 			}
 			idx := call.Call.Args[len(call.Call.Args)-1]
 			phi, ok := idx.(*ssa.Phi)
@@ -232,7 +253,6 @@ func ruleDoUniqueIndex(c *Ctx, r *R) {
 					bounded = true
 				}
 			}
-			// this path is taken under parallelism == 1
 			one := false
 			for _, gd := range guardsOf(b) {
 				if cf, ok := gd.asCmp(); ok && cf.op == token.EQL && isConstInt(cf.y, 1) && strings.Contains(path(cf.x), "parallelism") {
